@@ -36,6 +36,35 @@ def gen_cbor(ctx, mode="lang", quick=None, incomplete=False):
     return core.tlc_generate(ctx, "GenCbor", consts, ["RefContract", "RefComplete", "RefRoundTrip", "StuckAbsorbs"], name="GenCbor-" + mode)
 
 
+def gen_ubjson(ctx, mode="lang", quick=None, incomplete=False):
+    q = ctx.quick if quick is None else quick
+    if mode == "lang":
+        consts = dict(MaxLen=40, MaxItems=3 if q else 4, MaxRich=1, MaxDepth=2 if q else 3, Mode="lang", EmitIncomplete=incomplete)
+    else:
+        consts = dict(MaxLen=3 if q else 4, MaxItems=99, MaxRich=99, MaxDepth=99, Mode="any", EmitIncomplete=True)
+    return core.tlc_generate(ctx, "GenUbjson", consts, ["RefContract", "RefComplete", "StuckAbsorbs", "IdleIsInitial"], name="GenUbjson-" + mode)
+
+
+def gen_json(ctx, mode="lang", quick=None, incomplete=False):
+    q = ctx.quick if quick is None else quick
+    inv = ["RefContract", "RefComplete", "StuckAbsorbs", "IdleIsClean"]
+    if mode == "any":
+        consts = dict(MaxLen=3 if q else 4, MaxItems=99, MaxRich=99, MaxDepth=99, MaxStrItems=0, Mode="any", EmitIncomplete=True)
+        return core.tlc_generate(ctx, "GenJson", consts, inv, name="GenJson-any")
+    # documents: structure x one rich token; strings: one string of more items
+    a = core.tlc_generate(ctx, "GenJson", dict(MaxLen=80, MaxItems=3 if q else 4, MaxRich=1, MaxDepth=2 if q else 3,
+                                               MaxStrItems=2, Mode="lang", EmitIncomplete=incomplete), inv, name="GenJson-docs")
+    b = core.tlc_generate(ctx, "GenJson", dict(MaxLen=80, MaxItems=1, MaxRich=1, MaxDepth=1,
+                                               MaxStrItems=3 if q else 4, Mode="lang", EmitIncomplete=incomplete), inv, name="GenJson-strings")
+    seen, rows = set(), []
+    for r in a + b:
+        k = bytes(r["doc"])
+        if k not in seen:
+            seen.add(k)
+            rows.append(r)
+    return rows
+
+
 # ---------------------------------------------------------------- C05
 
 def c05(ctx):
@@ -55,6 +84,45 @@ def c05(ctx):
         assumptions=TCB)
 
 
+def c06(ctx):
+    rows = gen_ubjson(ctx, "lang")
+    cases = [case("C06", "parse", "ubjson", doc=r["doc"], origin="GenUbjson %s %s" % (r["class"], r["why"])) for r in rows]
+    number(cases)
+    tf, st = core.run_harness(ctx, cases)
+    failed, n = core.tlc_validate(ctx, "TraceCodec", tf)
+    return run.decide(
+        ctx, "TraceCodec", cases, tf, failed, n,
+        level_note="", exhaustive=True,
+        rule="TLC enumerates every path of the UBJSON draft-12 reference automaton (GenUbjson, mode lang) within the bounds in "
+             "coverage.generators: every marker, every length-marker choice, plain/counted/typed containers of every element type "
+             "including containers of containers, no-ops, empty strings/containers; each document is parsed by ubjson.Parse and the "
+             "recorded events are validated by TraceCodec against the reference value. Distinct = distinct byte strings; "
+             "non-trivial = contains a container or a length-prefixed value.",
+        nontrivial=lambda c: len(c["doc"]) > 2,
+        assumptions=TCB)
+
+
+def c04(ctx):
+    rows = gen_json(ctx, "lang")
+    cases = [case("C04", "parse", "json", doc=r["doc"], origin="GenJson %s %s" % (r["class"], r["why"])) for r in rows]
+    number(cases)
+    tf, st = core.run_harness(ctx, cases)
+    failed, n = core.tlc_validate(ctx, "TraceCodec", tf)
+    return run.decide(
+        ctx, "TraceCodec", cases, tf, failed, n,
+        level_note="", exhaustive=True,
+        rule="TLC enumerates chunk sequences over the byte-level RFC 8259 reference automaton (GenJson, mode lang) within the bounds in "
+             "coverage.generators: all grammatical sequences of structural characters, whitespace, 36 number literals (64-bit and float "
+             "boundaries), literals and strings, every string being a sequence of string items (raw 1-4 byte UTF-8, every escape, "
+             "\\u escapes incl. lone/paired surrogates), plus every one-step violation of the bracket/comma/colon structure; each "
+             "document is parsed by json.Parse and validated by TraceCodec (floats via the math/big number table). Distinct = distinct "
+             "byte strings; non-trivial = more than 3 bytes.",
+        nontrivial=lambda c: len(c["doc"]) > 3,
+        assumptions=TCB + ["decimal -> binary64 rounding of number literals is taken from math/big (harness num.go), not from the specification"])
+
+
 PROPS = {
+    "C04": c04,
+    "C06": c06,
     "C05": c05,
 }
